@@ -226,7 +226,11 @@ def fill_facts(tier, seed_):
                                           qualified_div=False, foreign_tax=False, hsa_you=False, hsa_spouse=False, f8606=False, div_heavy=False, dup_w2=False,
                                           plain_payers=True)
                     p.n = {"w-2": 1, "1099-int": 0, "1099-div": 0, "1099-r": 0, "1099-g": 0, "1098": 1, "1099-oid": 0}
-                    ov = {"1040.last_name": "Featherstonehaugh", "1040.first_name": "Pat"}
+                    # every other text is pinned to something that fits its box, so that the page 2 name is the ONLY value that cannot fit
+                    ov = {"1040.last_name": "Featherstonehaugh", "1040.first_name": "Pat", "1040.middle_initial": "Q", "1040.occupation": "Clerk",
+                          "1040.phone_number": "9195550100", "1040.email_address": "pat@example.org", "1040.home_address": "1 Elm St",
+                          "1040.apartment_no": "2", "1040.city": "Apex", "1040.zip": "27502", "1040.foreign_country": "", "1040.foreign_province": "",
+                          "1040.foreign_postal_code": "", "nc_d-400.county": "Wake"}
                 request = ["1040"] + (["nc_d-400"] if p.nc else [])
                 tr, res, solver, ans = scenarios.solve_scenario(year, request, p, rng, snap="none", overrides=ov)
                 if res["abort"] or not res.get("solved"):
